@@ -25,6 +25,7 @@ def cases(tier, rng):
     yield from s1.base_cases(tier, rng, s1.KINDS_ALL, s1.cons_all_cuts, tools_subset=s1.ITER_TOOLS + ["all", "any"])
     yield from s1.odd_value_cases(tier, rng, s1.KINDS_ALL, 500 if tier == "quick" else 10000, tools_subset=s1.ITER_TOOLS + ["all", "any"])
     yield from s1.impure_fn_cases(tier, rng, s1.KINDS_ALL, tools_subset=s1.ITER_TOOLS, cons_for=s1.cons_all_cuts)
+    yield from s1.shared_source_cases(tier, rng, s1.KINDS_ALL, cons_for=s1.cons_all_cuts)
     yield from s1.random_cases(tier, rng, s1.KINDS_ALL, 1500 if tier == "quick" else 40000, cons_kinds=("exhaust", "close"), tools_subset=s1.ITER_TOOLS + ["all", "any"])
 
 
@@ -51,6 +52,22 @@ def features(case, obs):  # noqa: F811
     return s1.features(case, obs)
 
 
+def _drop_repolls(vis):
+    ended, out, skip = set(), [], False
+    for ev in vis:
+        if ev[0] == "pull" and ev[1] in ended:
+            skip = True
+            continue
+        if skip and ev[0] == "end" and ev[1] in ended:
+            skip = False
+            continue
+        skip = False
+        if ev[0] == "end":
+            ended.add(ev[1])
+        out.append(ev)
+    return out
+
+
 def judge(case, obs, model):
     issues = []
     if case.get("family") == "tee":
@@ -62,6 +79,10 @@ def judge(case, obs, model):
     ls = list_srcs(case)
     a = strip(obs["async"]["vis"], ls)
     s = strip(obs["sync"]["vis"], ls)
+    if case.get("family") == "shared":
+        # one iterator at several positions is polled again after it reported its end; whether user code runs then depends
+        # on the kind (a finished async generator runs none, a synchronous iterator does): compare up to the first end
+        a, s = _drop_repolls(a), _drop_repolls(s)
     if a != s or not s1.same_ending(obs["async"]["out"], obs["sync"]["out"]):
         core = lambda v: [ev for ev in v if ev[0] not in ("pull", "end")]  # noqa: E731
         if len(a) > len(s) and core(a) == core(s) and s1.same_ending(obs["async"]["out"], obs["sync"]["out"]):
